@@ -66,8 +66,6 @@ structure SourceOK (src : Graph) (cap init : ℚ) : Prop where
   hcap : src.cap = some cap
   hinit : src.init = some init
   capFree : CapFree src cap init
-  /-- the depot window opens at the reference start time -/
-  lo0 : src.lo 0 = 0
   /-- customer-to-customer travel times are positive -/
   pos : C05.PosTimes src
 
@@ -81,10 +79,6 @@ theorem seqObj_vc (src : Graph) (s : Bool) (V L : ℕ) (v : ℕ) : (seqObj src s
 theorem SourceOK.pos_len {src : Graph} {cap init : ℚ} (h : SourceOK src cap init) : 0 < src.nodes.length :=
   List.length_pos_iff.2 h.nonempty
 
-theorem SourceOK.hi0 {src : Graph} {cap init : ℚ} (h : SourceOK src cap init) : leE 0 (src.hi 0) = true := by
-  have := C07.node_window_ok src h.inv 0 h.pos_len
-  rwa [h.lo0] at this
-
 /-! ## G1 — the depot self-loop -/
 
 /-- the graph of the non-strict object is the source with the self-loop assigned -/
@@ -96,8 +90,7 @@ theorem new_nonstrict_g_eq (src : Graph) (n0 : Node) (h0 : src.nodes.head? = som
 
 /-- **valid routes of `src + self-loop`**: the empty tour, and the valid routes of `src` -/
 theorem selfloop_validRoute_iff (src : Graph) (hsrc : C15.Inv src) (n0 : Node) (h0 : src.nodes.head? = some n0)
-    (h00 : src.hasArc 0 0 = false) (cap init : ℚ) (hcf : CapFree src cap init)
-    (hdep0 : leE 0 (src.hi 0) = true) (r : List ℕ) :
+    (h00 : src.hasArc 0 0 = false) (cap init : ℚ) (hcf : CapFree src cap init) (r : List ℕ) :
     C06.ValidRoute (SeqInst.new src false).g cap init r ↔ (r = [0, 0] ∨ C06.ValidRoute src cap init r) := by
   obtain ⟨hsub, _, harc⟩ := c8d_new_sub src hsrc false n0 h0
   have hsup := c8d_new_nonstrict_super src hsrc n0 h0
@@ -114,9 +107,11 @@ theorem selfloop_validRoute_iff (src : Graph) (hsrc : C15.Inv src) (n0 : Node) (
         cases hn : src.nodes with
         | nil => rw [hn] at h0; simp at h0
         | cons a l => simp
-      have ht : ltE ((SeqInst.new src false).g.hi 0) (maxR (0 + 0) ((SeqInst.new src false).g.lo 0)) = false := by
+      have ht : ltE ((SeqInst.new src false).g.hi 0)
+          (maxR ((SeqInst.new src false).g.lo 0 + 0) ((SeqInst.new src false).g.lo 0)) = false := by
         rw [Graph.hi_congr_nodes hsub.nodes, Graph.lo_congr_nodes hsub.nodes]
-        have h0' : leE (0 + 0) (src.hi 0) = true := by rw [add_zero]; exact hdep0
+        have h0' : leE (src.lo 0 + 0) (src.hi 0) = true := by
+          rw [add_zero]; exact C07.node_window_ok src hsrc 0 h0len
         have := C07.leE_maxR h0' (C07.node_window_ok src hsrc 0 h0len)
         unfold ltE
         rw [this]; rfl
@@ -222,17 +217,16 @@ theorem seq_nonstrict_le_source (src : Graph) (hsrc : C15.Inv src) (hne : src.no
 /-- **T2, strict sequence-based ≥ reference of the SOURCE**: every walk assignment of the strict object built from
     `src` yields a reference partition of `src` whose cost is the walk objective -/
 theorem seq_strict_ge_source (src : Graph) (hsrc : C15.Inv src) (hne : src.nodes ≠ [])
-    (cap init : ℚ) (hcf : CapFree src cap init) (hlo : src.lo 0 = 0) (V L : ℕ) (hL : 3 ≤ L)
+    (cap init : ℚ) (hcf : CapFree src cap init) (V L : ℕ) (hL : 3 ≤ L)
     (w : ℕ → ℕ → ℕ) (hw : C07.Walk (seqObj src true V L) w) :
     ∃ rs, IsPartition src cap init rs ∧
       partitionCost src cap init rs = seqWalkCost (seqObj src true V L) w := by
   obtain ⟨n0, h0⟩ := c8d_head_of_ne_nil src hne
   obtain ⟨hsub, hinv, harc⟩ := c8d_new_sub src hsrc true n0 h0
-  have hlo' : (SeqInst.new src true).g.lo 0 = 0 := by rw [Graph.lo_congr_nodes hsub.nodes]; exact hlo
   have hcf' : CapFree (SeqInst.new src true).g cap init :=
     ⟨fun i => by rw [c8d_demand_congr hsub.nodes]; exact hcf.dem i, hcf.init0, hcf.initc⟩
   obtain ⟨rs, hp, hc⟩ := seq_strict_ge_reference (seqObj src true V L) cap init hL hinv
-    (C07.new_strict_arcs src hsrc).1 hcf' (le_of_eq hlo'.symm) (le_of_eq hlo')
+    (C07.new_strict_arcs src hsrc).1 hcf'
     (by simp [C07.arcTime, harc]) (by simp [C07.arcCost, harc]) (seqObj_vc src true V L) w hw
   obtain ⟨hp', hcost⟩ := strict_partition_to_source src hsrc n0 h0 cap init rs hp
   exact ⟨_, hp', hcost.trans hc⟩
@@ -271,7 +265,7 @@ theorem four_models_one_source (src : Graph) (cap init : ℚ) (hs : SourceOK src
   obtain ⟨n0, h0⟩ := c8d_head_of_ne_nil src hs.nonempty
   refine ⟨?_, ?_, ?_, ?_⟩
   · exact arc_complete_grid_eq_reference { g := src, T := T } ⟨hsorted, hnodup, hs.inv⟩ hs.pos cap init
-      hs.capFree (le_of_eq hs.lo0) (le_of_eq hs.lo0.symm) hs.hi0 hs.noself hgrid c
+      hs.capFree hs.noself hgrid c
   · exact path_offer_exhaustive_eq_reference src hs.inv cap init hs.hcap hs.hinit c
   · rintro ⟨rs, hp, hc⟩
     obtain ⟨hsub, hinv, _⟩ := c8d_new_sub src hs.inv false n0 h0
@@ -284,7 +278,7 @@ theorem four_models_one_source (src : Graph) (cap init : ℚ) (hs : SourceOK src
     obtain ⟨hsub, hinv, _⟩ := c8d_new_sub src hs.inv true n0 h0
     obtain ⟨w, hw, hcw⟩ := (seqAch_iff_walk (seqObj src true V L) hL
       (by rw [seqObj_g, hsub.nodes]; exact hs.pos_len) hinv c).1 h
-    obtain ⟨rs, hp, hc⟩ := seq_strict_ge_source src hs.inv hs.nonempty cap init hs.capFree hs.lo0 V L hL w hw
+    obtain ⟨rs, hp, hc⟩ := seq_strict_ge_source src hs.inv hs.nonempty cap init hs.capFree V L hL w hw
     exact ⟨rs, hp, hc.trans hcw⟩
 
 /-! ## T4 — optima -/
@@ -482,7 +476,6 @@ theorem exSrc_ok : SourceOK exSrc 1 1 where
     | 1 => decide +kernel
     | 2 => decide +kernel
     | i + 3 => simp [Graph.demand, exSrc]
-  lo0 := by decide +kernel
   pos := by unfold C05.PosTimes; decide +kernel
 
 /-- the grid `0, 1, 2, 3` holds every service time of every valid route of `exSrc` -/
